@@ -3,7 +3,7 @@ from typing import Any, Dict, Union
 from tartiflette.language.ast import VariableNode
 from tartiflette.utils.values import is_invalid_value
 
-__all__ = ("is_missing_variable",)
+__all__ = ("is_missing_variable", "relocate_default_value_errors")
 
 
 def is_missing_variable(
@@ -25,3 +25,24 @@ def is_missing_variable(
         or value_node.name.value not in variables
         or is_invalid_value(variables[value_node.name.value])
     )
+
+
+def relocate_default_value_errors(
+    coercion_result: Any, node: Union["Node", None]
+) -> Any:
+    """
+    Links the errors encountered while coercing a default value defined in
+    the SDL to the AST node for which the default value has been used (or to
+    nothing), instead of the location of the default value in the SDL.
+    :param coercion_result: the result of the default value coercion
+    :param node: the AST node for which the default value has been used
+    :type coercion_result: Any
+    :type node: Union[Node, None]
+    :return: the result of the default value coercion
+    :rtype: Any
+    """
+    errors = getattr(coercion_result, "errors", None)
+    if errors:
+        for error in errors:
+            error.locations = [node.location] if node else []
+    return coercion_result
